@@ -110,6 +110,13 @@ def _optimize_operator_call_attr(  # pylint: disable=too-many-return-statements
 
 
 class PythonASTOptimizer(ast.NodeTransformer):
+    """Optimize generated Python ASTs.
+
+    Statement lists are trimmed of dead code *before* their statements are visited:
+    visiting a `global` statement records its names in the current scope, so a dead
+    `global` statement must not be visited or a later, live declaration of the same
+    name would be dropped as redundant."""
+
     __slots__ = ("_global_ctx",)
 
     def __init__(self):
@@ -141,6 +148,7 @@ class PythonASTOptimizer(ast.NodeTransformer):
 
     def visit_ExceptHandler(self, node: ast.ExceptHandler) -> ast.AST | None:
         """Eliminate dead code from except handler bodies."""
+        node.body = _filter_dead_code(node.body)
         new_node = self.generic_visit(node)
         assert isinstance(new_node, ast.ExceptHandler)
         return ast.copy_location(
@@ -161,6 +169,7 @@ class PythonASTOptimizer(ast.NodeTransformer):
 
     def visit_FunctionDef(self, node: ast.FunctionDef) -> ast.AST | None:
         """Eliminate dead code from function bodies."""
+        node.body = _filter_dead_code(node.body)
         with self._new_global_context():
             new_node = self.generic_visit(node)
         assert isinstance(new_node, ast.FunctionDef)
@@ -180,6 +189,7 @@ class PythonASTOptimizer(ast.NodeTransformer):
 
         Like any other function, an async function is a scope of its own for `global`
         declarations."""
+        node.body = _filter_dead_code(node.body)
         with self._new_global_context():
             new_node = self.generic_visit(node)
         assert isinstance(new_node, ast.AsyncFunctionDef)
@@ -217,6 +227,8 @@ class PythonASTOptimizer(ast.NodeTransformer):
 
         If both the `body` and `orelse` body are empty, eliminate the node from the
         tree."""
+        node.body = _filter_dead_code(node.body)
+        node.orelse = _filter_dead_code(node.orelse)
         new_node = self.generic_visit(node)
         assert isinstance(new_node, ast.If)
 
@@ -242,6 +254,8 @@ class PythonASTOptimizer(ast.NodeTransformer):
 
     def visit_While(self, node: ast.While) -> ast.AST | None:
         """Eliminate dead code from while bodies."""
+        node.body = _filter_dead_code(node.body)
+        node.orelse = _filter_dead_code(node.orelse)
         new_node = self.generic_visit(node)
         assert isinstance(new_node, ast.While)
         return ast.copy_location(
@@ -255,6 +269,9 @@ class PythonASTOptimizer(ast.NodeTransformer):
 
     def visit_Try(self, node: ast.Try) -> ast.AST | None:
         """Eliminate dead code from except try bodies."""
+        node.body = _filter_dead_code(node.body)
+        node.orelse = _filter_dead_code(node.orelse)
+        node.finalbody = _filter_dead_code(node.finalbody)
         new_node = self.generic_visit(node)
         assert isinstance(new_node, ast.Try)
         return ast.copy_location(
